@@ -54,6 +54,9 @@ pub struct Verdict { pub kind: String, pub nontrivial: bool, pub classes: Vec<St
 pub struct Done { pub case: Case, pub obs: String, pub v: Verdict }
 
 pub fn exec_guarded(p: &PropDef, input: &[String]) -> String {
+    // a share of the cases is preceded by aborted operations on this thread (props/aborts.rs): they must leave nothing behind
+    let mask = match p.id { "C01" | "C09" | "C10" => 8, "C02" | "C05" | "C06" | "C11" => 3, "C03" | "C04" | "C12" => 16, "C07" | "C08" | "C13" | "C14" => 4, "C16" | "C17" | "C18" | "C19" | "C20" => 1, _ => 0 };
+    if mask != 0 { let _ = std::panic::catch_unwind(|| crate::props::aborts::maybe_abort(input, mask)); }
     crate::props::common::set_case_mode(input);
     let r = std::panic::catch_unwind(std::panic::AssertUnwindSafe(|| (p.exec)(input)));
     match r {
